@@ -37,7 +37,10 @@ pub fn gen_node(sig: &LangSig, alphabet: usize, src: &mut Src) -> Tm {
         match f {
             Field::Slot => args.push(Arg::S(src.pick(alphabet) as Name)),
             Field::PayU32 => args.push(Arg::P(format!("{}", src.pick(5)))),
-            Field::PaySym => args.push(Arg::P(["s", "t"][src.pick(2)].to_string())),
+            // payload values the text syntax cannot carry (whitespace at the ends or inside) are still values of the node type:
+            // to_syntax / from_syntax must round-trip them
+            Field::PaySym => args.push(Arg::P(["s", "t", " a", "a ", "a b", "\ts", " 1", ""][if src.pick(5) == 0 { 2 + src.pick(5) } else { src.pick(2) }].to_string())),
+            Field::PayOther(v) if v.contains(&"Z") && src.pick(5) == 0 => args.push(Arg::P([" ", "\t", "\u{a0}", "\n"][src.pick(4)].to_string())),
             Field::PayOther(v) => args.push(Arg::P(v[src.pick(v.len())].to_string())),
             Field::Kid(nb) => {
                 let bs: Vec<Name> = (0..*nb).map(|_| src.pick(alphabet) as Name).collect();
